@@ -186,6 +186,41 @@ PROPS.update({
 })
 
 
+PROPS.update({
+    'C10': dict(
+        gens=[('comp', 'small', 2500, 40000, 10)],
+        spec_fields=[r'ok\.cc', r'ok\.wcc', r'ok\.scc', r'ok\.ncc', r'ok\.num', r'ok\.bfs', r'ok\.eq'],
+        model_fields=[r'build', r'cc', r'wcc', r'scc', r'ncc', r'num', r'eq'],
+        nontrivial=lambda req, I: any(',' in I.get(f, '') for f in ('cc', 'wcc', 'scc')),
+        hist=lambda req, I: graph_hist(req, I) + ['k.' + req.split()[-1]] + ['ncomp.%d' % (len(I.get(f, '').split())) for f in ('cc', 'wcc') if not I.get(f, 'E').startswith('E')],
+        rule='random graphs of all 8 kinds with 0..10 nodes at densities 4-20% (many small components, isolated nodes, cycles, nested SCCs), '
+             'one start node x (10% absent), k in 1..n+2; all seven functions of the components module plus breadth_first_search from every node; '
+             'non-trivial = some component has at least two nodes',
+        assumptions=COMMON_ASSUME[:2] + ['hash-set iteration orders are list orders in the model; answers are compared as sets of sets '
+                                         '(bfs_equal_size_partitions, which is deterministic, exactly)'],
+    ),
+})
+
+
+PROPS.update({
+    'C11': dict(
+        gens=[('clu', 'small', 2500, 40000, 7)],
+        spec_fields=[r'tri', r'triS', r'gd', r'gdS', r'trans:q', r'clu:q', r'cluS:q', r'wclu:b', r'wcluS:b', r'avg1:b', r'avg0:b',
+                     r'avgS:b', r'sq:q', r'sqS:q', r'ok\.unit'],
+        model_fields=[r'build', r'tri', r'triS', r'gd', r'gdS', r'trans:q', r'clu:q', r'cluS:q', r'wclu:b', r'wcluS:b', r'avg1:b',
+                      r'avg0:b', r'avgS:b', r'sq:q', r'sqS:q'],
+        nontrivial=lambda req, I: bool(re.search(r'>(?!0\.0( |$))[0-9.e-]+', I.get('clu:q', ''))),
+        hist=lambda req, I: graph_hist(req, I) + ['clu.' + ('E' if I.get('clu:q', '').startswith('E') else 'ok'),
+                                                   'triS.' + ('E' + I['triS'][1:] if I.get('triS', '').startswith('E') else 'ok')],
+        rule='random graphs (88% single-edge) of 1..7 nodes at densities 15-60% with self-loops, positive integer weights / unweighted / '
+             'mixed, a random non-empty subset of the nodes as node_names (7% with an absent name); every function of the cluster module '
+             'for the full node set and for the subset; non-trivial = some node has a non-zero clustering coefficient',
+        assumptions=COMMON_ASSUME[:2] + ['weighted coefficients are evaluated over Float (cbrt) on both sides of the comparison and compared '
+                                         'with relative tolerance 1e-9; cbrt/division rounding is not modelled'],
+    ),
+})
+
+
 def run_translator(ctx, name):
     import extract
     return extract.run(ctx, name)
